@@ -946,7 +946,7 @@ ASSUMPTIONS = [
 
 def run(tier, seed):
     core.standard_run(PID, tier, seed, {
-        'model_vos': ['Node/Owners'], 'table_sections': [],
+        'model_vos': ['Node/Owners'], 'table_sections': ['source_shape'],
         'preamble': PREAMBLE, 'run_fn': RUN_FN, 'in_type': IN_TYPE,
         'gen_case': gen_case,
         'impl_run': impl_run,
